@@ -223,6 +223,34 @@ def stray_wake(chk, col, bindir, tier, release=False, tag=""):
     col.flush("wake" + tag)
 
 
+def directed_stray(chk, col, bindir, tier, release=False, tag=""):
+    """Directed schedules for every futex wait site (join, and drop after the thread won the flag
+    CAS), independent of the shape of the wait loop: the thread is held at a chosen point before its
+    exit, the owner is driven turn by turn until it is parked in the kernel on the exit futex, a
+    real stray FUTEX_WAKE is delivered, the owner is driven on until it parks again (or finishes),
+    then everybody runs free.  {thread returns, panics} x {held where} x {join, drop}."""
+    cases = []
+    # drop: the thread must have won the flag (past its CAS) and still be alive
+    for ty, hold in (("dv", "15"), ("vec", "16"), ("u8", "15")):
+        cases.append(("s1:%s:r;d1" % ty, "h>60,t1>%s,h>p,w,h>p" % hold))
+    cases.append(("s1:u128:p;d1", "h>60,t1>25,h>p,w,h>p"))
+    # join: the thread is anywhere before its exit
+    for ty, fin, hold in (("u8", "r", None), ("vec", "r", "10"), ("dv", "r", "15"), ("arr", "p", "21")):
+        steps = "h>60," + ("t1>%s," % hold if hold else "") + "h>p,w,h>p"
+        cases.append(("s1:%s:%s;j1" % (ty, fin), steps))
+    if tier != "quick":
+        cases += [("s1:a64:r;d1", "h>60,t1>16,h>p,w,h>p,w,h>p"), ("s1:z:p;j1", "h>60,t1>25,h>p,w,h>p"),
+                  ("s1:dv:r;s2:vec:r;d1;j2", "h>60,h>60,t1>15,t2>11,h>p,w,h>p")]
+    script = ["set watchdog=4000"]
+    for ops, steps in cases:
+        script += ["baseline", "sched ops=%s steps=%s" % (ops, steps), "quiesce"]
+    r = T.run_probe(chk, bindir, "directed-stray" + tag, script, strace=False, timeout=300)
+    r.release = release
+    o, b, info = col.add(r, "directed")
+    col.flush("directed" + tag)
+    return info
+
+
 WARM = 5
 
 
